@@ -1,11 +1,15 @@
 import Sudachi.Proofs.Subset
+import Sudachi.Proofs.SubsetTok
 /-!
 # C11 — Loading a subset of word fields never changes the fields that were requested
 
 Model: `Subset.parse` (`WordInfoParser::parse`, the `parse_field!` macro unfolded over the ten
 fields with their byte-level readers and skip functions), `Subset.normalize`
 (`InfoSubset::normalize`, variant `cur` = the tree, `fix` = with the repair of D10),
-`Subset.getWordInfo` (`WordInfos::get_word_info`), the accessors, `setMode`/`setSubset`.
+`Subset.getWordInfo` (`WordInfos::get_word_info`), the accessors, `setMode`/`setSubset`,
+`Subset.getWordInfoSubset` (`LexiconSet::get_word_info_subset` with the per-field POS / dictionary-id
+fix-ups of user dictionaries), `Subset.tokenize` (`resolve_best_path` + `split_path` +
+`NodeSplitIterator::next` on the best path the lattice search hands over).
 Quantifiers: every word the binary format can represent (`WF`: scalar values, at most 32 767
 UTF-16 units per string, at most 255 array elements, 16/32-bit numbers), every request mask
 (all 1 024 subsets, junk bits included), arbitrary bytes after the record.
@@ -43,8 +47,8 @@ theorem head_word_length_loaded_with_splits (w : WordInfoData) (hw : WF w) (S : 
   have : Loaded S 1 := by
     refine ⟨by omega, Or.inr ⟨Or.inl rfl, ?_⟩⟩
     rcases h with h | h
-    · exact ⟨6, by omega, by omega, h⟩
-    · exact ⟨7, by omega, by omega, h⟩
+    · exact ⟨6, by omega, h⟩
+    · exact ⟨7, by omega, h⟩
   simpa [proj] using l 1 this
 
 /-- requested accessors agree (everything except the dictionary-form string, which needs the
@@ -118,34 +122,41 @@ theorem dictionary_form_eq_fix (ws : List WordInfoData) (hwf : ∀ w ∈ ws, WF 
   refine ⟨i1, i2, e1, e2, ?_, by rw [f1, f2]⟩
   simp only [accDictionaryForm, d1, d2, s1, s2]
 
-/-- **Clause 1 at `WordInfos::get_word_info` (partial).**  Full statement: for every request `S`,
-`get_word_info S` and `get_word_info ALL` succeed and agree on every field of `S` (synonym ids only
-when the header announces them).  Proved here for requests that reach the dictionary-form id
-(some flag from DIC_FORM_WORD_ID on remains after the synonym adjustment).  Missing: for smaller
-requests the id is left at its default 0, the code then consults word 0 for a dictionary form, and
-the model theorems do not yet state "fields that are not loaded keep their defaults", which is
-needed to show that this consult cannot fail. -/
-theorem get_word_info_fields_eq_partial (ws : List WordInfoData) (hwf : ∀ w ∈ ws, WF w) (hdf : DfOk ws)
-    (hasSyn : Bool) (k : Nat) (hk : k < ws.length) (S : Nat)
-    (hreach : ∃ c, 4 ≤ c ∧ c < 10 ∧ (effSubset hasSyn S).testBit c = true) :
+/-- **Clause 1 at `WordInfos::get_word_info` (full).**  In a lexicon of representable words whose
+dictionary-form references stay inside the lexicon, for EVERY request `S` (junk bits included), with or
+without synonym ids in the header: `get_word_info S` and `get_word_info ALL` both succeed and agree on
+every stored field of `S` (synonym ids only when the header announces them: the reader drops that flag
+otherwise).  For requests that do not reach the dictionary-form id the id keeps its default 0 and the
+code consults word 0 for a dictionary form; that consult cannot fail
+(`get_word_info_unloaded_defaults`), which is what the earlier `_partial` version was missing. -/
+theorem get_word_info_fields_eq (ws : List WordInfoData) (hwf : ∀ w ∈ ws, WF w) (hdf : DfOk ws)
+    (hasSyn : Bool) (k : Nat) (hk : k < ws.length) (S : Nat) :
     ∃ i1 i2, getWordInfo (lexOf ws hasSyn) k S = .ok i1 ∧ getWordInfo (lexOf ws hasSyn) k ALL = .ok i2 ∧
       FieldsEq (effSubset hasSyn S) i1 i2 := by
-  obtain ⟨c, hc4, hc10, hc⟩ := hreach
-  have L1 : Loaded (effSubset hasSyn S) 4 := ⟨by omega, Or.inr ⟨Or.inr (Or.inr rfl), c, hc4, hc10, hc⟩⟩
-  have effAll : ∀ j, j < 10 → (effSubset hasSyn S).testBit j = true → (effSubset hasSyn ALL).testBit j = true := by
-    intro j hj h
-    unfold effSubset at h ⊢
-    split
-    · rename_i hs
-      rw [if_pos hs, testBit_remove] at h
-      rw [testBit_remove, all_testBit hj]
-      simp at h ⊢
-      exact h.2
-    · exact all_testBit hj
-  have L2 : Loaded (effSubset hasSyn ALL) 4 := ⟨by omega, Or.inr ⟨Or.inr (Or.inr rfl), c, hc4, hc10, effAll c hc10 hc⟩⟩
-  obtain ⟨i1, e1, l1, _⟩ := getWordInfo_spec ws hwf hdf hasSyn k hk S L1
-  obtain ⟨i2, e2, l2, _⟩ := getWordInfo_spec ws hwf hdf hasSyn k hk ALL L2
-  exact ⟨i1, i2, e1, e2, fieldsEq_of_proj l1 l2 (fun _ _ h => h) effAll⟩
+  obtain ⟨i1, e1, l1, _⟩ := getWordInfo_spec_full ws hwf hdf hasSyn k hk S
+  obtain ⟨i2, e2, l2, _⟩ := getWordInfo_spec_full ws hwf hdf hasSyn k hk ALL
+  exact ⟨i1, i2, e1, e2, fieldsEq_of_proj l1 l2 (fun _ _ h => h) (effSubset_all_of hasSyn S)⟩
+
+/-- **Fields that are not loaded keep their defaults** (`WordInfoData::default()`), for every request,
+at `get_word_info` level: a heavy field that is not requested, and a light field with no request bit
+at or above it, read 0 / empty.  Consequence spelled out for the dictionary form: when the id is not
+loaded the code still runs its consult with the default id 0 — the stored `dictionary_form` is then the
+surface of word 0 (empty for word 0 itself), and the call succeeds. -/
+theorem get_word_info_unloaded_defaults (ws : List WordInfoData) (hwf : ∀ w ∈ ws, WF w) (hdf : DfOk ws)
+    (hasSyn : Bool) (k : Nat) (hk : k < ws.length) (S : Nat) :
+    ∃ i, getWordInfo (lexOf ws hasSyn) k S = .ok i ∧
+      (∀ b, Unloaded (effSubset hasSyn S) b → proj b i = proj b {}) ∧
+      (Unloaded (effSubset hasSyn S) 4 →
+        i.dictionaryFormWordId = 0 ∧
+        i.dictionaryForm = if k = 0 then [] else (ws[0]'(by omega)).surface) := by
+  obtain ⟨i, e, _, u, _, du⟩ := getWordInfo_spec_full ws hwf hdf hasSyn k hk S
+  refine ⟨i, e, u, fun h => ⟨by simpa [proj] using u 4 h, ?_⟩⟩
+  rw [du h]
+  have h0 : 0 < ws.length := by omega
+  by_cases hk0 : k = 0
+  · simp [dicFormOf, hk0]
+  · have : ¬ ((0 : Int) = (k : Int)) := by omega
+    simp [dicFormOf, hk0, this, List.getElem?_eq_getElem h0]
 
 /-- a one-word lexicon: `あ`, its own dictionary form (`*` in the CSV, id -1), nothing else -/
 def d10Word : WordInfoData := { surface := [12354], headWordLength := 3, dictionaryFormWordId := -1 }
@@ -226,6 +237,83 @@ theorem request_survives_set_mode (v : NzVariant) (st : TokState) (S : Nat) (ms 
       exact ih (setMode st' m) (fun j hj => set_mode_keeps_subset st' m j (h j hj))
   exact gen ms _ (set_subset_contains_request v st S)
 
+/-! ### `LexiconSet::get_word_info_subset` and the analysis after the lattice search -/
+
+/-- **Clause 1 at `LexiconSet::get_word_info_subset` (full), any number of user dictionaries.**  In a
+lexicon set of representable words (dictionary forms inside their own lexicon, one POS offset per
+lexicon), for every word id of the set and EVERY request `S`: the subset load and the full load both
+succeed and agree on every stored field of `S` *after* the fix-ups of user dictionaries — the POS id
+re-based by the dictionary's offset, the `U`-references of SPLIT_A / SPLIT_B / WORD_STRUCTURE
+re-stamped with the dictionary's own number (synonym ids only when the header announces them). -/
+theorem get_word_info_subset_fields_eq (src : Src) (po : List Nat) (nsys : Nat) (hok : LexSetOk src po)
+    (id : Nat) (hd : widDic id < src.length) (hk : widWord id < (src[widDic id]).1.length) (S : Nat) :
+    ∃ i1 i2, getWordInfoSubset (lexSetOf src po nsys) id S = .ok i1 ∧
+      getWordInfoSubset (lexSetOf src po nsys) id ALL = .ok i2 ∧
+      FieldsEq (effSubset (src[widDic id]).2 S) i1 i2 := by
+  obtain ⟨i1, e1, f1, _⟩ := getWordInfoSubset_spec src po nsys hok id hd hk S
+  obtain ⟨i2, e2, f2, _⟩ := getWordInfoSubset_spec src po nsys hok id hd hk ALL
+  have up := effSubset_all_of (src[widDic id]).2 S
+  refine ⟨i1, i2, e1, e2, ?_⟩
+  constructor
+  · intro h; rw [f1.surface h, f2.surface (up 0 (by omega) h)]
+  · intro h; rw [f1.headWordLength h, f2.headWordLength (up 1 (by omega) h)]
+  · intro h; rw [f1.posId h, f2.posId (up 2 (by omega) h)]
+  · intro h; rw [f1.normalizedForm h, f2.normalizedForm (up 3 (by omega) h)]
+  · intro h; rw [f1.dictionaryFormWordId h, f2.dictionaryFormWordId (up 4 (by omega) h)]
+  · intro h; rw [f1.readingForm h, f2.readingForm (up 5 (by omega) h)]
+  · intro h; rw [f1.aUnitSplit h, f2.aUnitSplit (up 6 (by omega) h)]
+  · intro h; rw [f1.bUnitSplit h, f2.bUnitSplit (up 7 (by omega) h)]
+  · intro h; rw [f1.wordStructure h, f2.wordStructure (up 8 (by omega) h)]
+  · intro h; rw [f1.synonymGroupIds h, f2.synonymGroupIds (up 9 (by omega) h)]
+
+/-- **The dictionary-id fix-up is per field.**  Each of the three id lists is re-stamped as soon as
+ITS OWN flag is in the request — whatever the other two flags are (a request with exactly one of
+SPLIT_A / SPLIT_B / WORD_STRUCTURE included): the loaded list is `update_dict_id` of the stored one. -/
+theorem rebase_needs_only_own_flag (src : Src) (po : List Nat) (nsys : Nat) (hok : LexSetOk src po)
+    (id : Nat) (hd : widDic id < src.length) (hk : widWord id < (src[widDic id]).1.length) (S : Nat) :
+    ∃ i, getWordInfoSubset (lexSetOf src po nsys) id S = .ok i ∧
+      (S.testBit SPLIT_A = true →
+        i.aUnitSplit = updateDictId ((src[widDic id]).1[widWord id]).aUnitSplit (widDic id)) ∧
+      (S.testBit SPLIT_B = true →
+        i.bUnitSplit = updateDictId ((src[widDic id]).1[widWord id]).bUnitSplit (widDic id)) ∧
+      (S.testBit WORD_STRUCTURE = true →
+        i.wordStructure = updateDictId ((src[widDic id]).1[widWord id]).wordStructure (widDic id)) := by
+  obtain ⟨i, e, f, _⟩ := getWordInfoSubset_spec src po nsys hok id hd hk S
+  exact ⟨i, e, fun h => f.aUnitSplit (testBit_effSubset (by decide) h),
+    fun h => f.bUnitSplit (testBit_effSubset (by decide) h),
+    fun h => f.wordStructure (testBit_effSubset (by decide) h)⟩
+
+/-- **What the fix-up does to one reference** (`update_dict_id`, dictionary number `d < 16`): the list
+keeps its length; a reference into the system dictionary is unchanged; every other reference (the
+builder writes `U`-references with number 1, also inside the second, third, … user dictionary) gets
+number `d` — the dictionary the word was read from — and keeps its word number. -/
+theorem rebase_user_references (split : List Nat) (d : Nat) (hd : d < 16) :
+    (updateDictId split d).length = split.length ∧
+    ∀ i (hi : i < split.length) (hi' : i < (updateDictId split d).length),
+      (widDic split[i] = 0 → (updateDictId split d)[i] = split[i]) ∧
+      (widDic split[i] > 0 → widDic (updateDictId split d)[i] = d ∧
+        widWord (updateDictId split d)[i] = widWord split[i]) :=
+  updateDictId_spec split d hd
+
+/-- **Clause 2 (full for configurations without path-rewrite plugins): boundaries and word identities
+do not depend on the subset.**  For every well-formed lexicon set (any number of user dictionaries),
+every initial mode and EVERY sequence of `set_mode` / `set_subset` calls, every rewritten text and every
+best path handed over by the lattice search (which reads word parameters only — the subset is not an
+input of it): the word ids and byte boundaries produced by `resolve_best_path` + `split_path` under the
+subset the tokenizer ends up with equal those of a full-field analysis in the same final mode; a
+failure (an ill-formed split reference) is the same failure in both.  The only word-info fields read
+on the way are the split list of the mode — loaded and re-stamped because its flag is in the subset
+after any order of calls (`mode_flag_loaded_any_order`, `rebase_needs_only_own_flag`) — and the
+head-word length — loaded because a later flag is requested although `set_mode` does not normalise. -/
+theorem boundaries_subset_free (v : NzVariant) (src : Src) (po : List Nat) (nsys : Nat) (hok : LexSetOk src po)
+    (m0 : Mode) (ops : List Op) (text : Bytes) (path : List PNode) :
+    shapeRes (tokenize (lexSetOf src po nsys) (applyOps v (newTok m0) ops) text path) =
+    shapeRes (tokenize (lexSetOf src po nsys) (newTok (applyOps v (newTok m0) ops).mode) text path) := by
+  have hflag := mode_flag_loaded_any_order v m0 ops
+  exact tokenize_agree (lexSetOf src po nsys) (applyOps v (newTok m0) ops).mode
+    (applyOps v (newTok m0) ops).subset ALL
+    (gwisAgree_all src po nsys hok _ _ hflag) text path
+
 /-! ### non-vacuity -/
 
 /-- `WF`, `DfOk` are inhabited by a word with every kind of field (astral character, 2-byte length
@@ -245,4 +333,61 @@ example : encodeBytes d10Word = [1, 66, 48, 3, 0, 0, 0, 255, 255, 255, 255, 0, 0
 example : parse (2 ^ READING_FORM) (encodeBytes d10Word ++ [7, 7]) =
     .ok { headWordLength := 3, dictionaryFormWordId := -1 } := by decide
 
+/-! ### non-vacuity of `LexSetOk`: three dictionaries, `U`-references inside the SECOND user dictionary -/
+
+/-- system dictionary `a`; first user dictionary `b`; second user dictionary `c` and `cca` whose A split,
+B split and word structure are all `U0 / 0` — stored as (dictionary 1, word 0), (dictionary 0, word 0) -/
+def exSrc : Src :=
+  [([{ surface := [97], headWordLength := 1 }], true),
+   ([{ surface := [98], headWordLength := 1 }], true),
+   ([{ surface := [99], headWordLength := 1 },
+     { surface := [99, 99, 97], headWordLength := 3, aUnitSplit := [268435456, 0], bUnitSplit := [268435456, 0],
+       wordStructure := [268435456, 0] }], false)]
+
+example : LexSetOk exSrc [0, 3, 4] := by
+  refine ⟨?_, ?_, rfl⟩
+  · intro p hp w hw
+    simp [exSrc] at hp
+    rcases hp with rfl | rfl | rfl
+    · simp at hw; subst hw
+      exact wf_basic [97] 1 [] [] [] (strOk_one 97 (by omega)) (by omega) arrOk_nil arrOk_nil arrOk_nil
+    · simp at hw; subst hw
+      exact wf_basic [98] 1 [] [] [] (strOk_one 98 (by omega)) (by omega) arrOk_nil arrOk_nil arrOk_nil
+    · simp at hw
+      rcases hw with rfl | rfl
+      · exact wf_basic [99] 1 [] [] [] (strOk_one 99 (by omega)) (by omega) arrOk_nil arrOk_nil arrOk_nil
+      · refine wf_basic [99, 99, 97] 3 _ _ _ ⟨?_, by decide⟩ (by omega) arrOk_u0_s0 arrOk_u0_s0 arrOk_u0_s0
+        intro x hx; simp at hx; rcases hx with rfl | rfl <;> (left; omega)
+  · intro p hp w hw
+    simp [exSrc] at hp
+    rcases hp with rfl | rfl | rfl <;> simp at hw
+    · subst hw; right; decide
+    · subst hw; right; decide
+    · rcases hw with rfl | rfl <;> (right; decide)
+
+example : (getWordInfoSubset (lexSetOf exSrc [0, 3, 4] 3) (widNew 2 1) (2 ^ SPLIT_A)).bind
+    (fun i => .ok (i.aUnitSplit, i.bUnitSplit, i.wordStructure)) = .ok ([536870912, 0], [], []) := by decide
+example : (getWordInfoSubset (lexSetOf exSrc [0, 3, 4] 3) (widNew 2 1) (2 ^ WORD_STRUCTURE)).bind
+    (fun i => .ok (i.aUnitSplit, i.bUnitSplit, i.wordStructure)) = .ok ([], [], [536870912, 0]) := by decide
+
+example : shapeRes (tokenize (lexSetOf exSrc [0, 3, 4] 3) (applyOps .fix (newTok .C) [.subset 0, .mode .A])
+      [99, 99, 97] [⟨widNew 2 1, 0, 3, []⟩]) = .ok [(536870912, 0, 1), (0, 1, 3)] := by decide
+
+/-- hypotheses `Unloaded`, `widDic id < …`, `widWord id < …` are inhabited: request {SURFACE} does not
+reach the dictionary-form id; the consult of word 0 then shows through (`c` is word 0 of `exSrc[2]`) -/
+example : Unloaded (effSubset false (2 ^ SURFACE)) 4 := by
+  refine ⟨by omega, ?_⟩
+  rw [if_pos (by omega)]
+  intro c hc
+  have : (2 ^ SURFACE).testBit c = true := effSubset_testBit hc
+  rw [Nat.testBit_two_pow] at this
+  have h0 : SURFACE = c := of_decide_eq_true this
+  unfold SURFACE at h0
+  omega
+
+example : (getWordInfo (lexOf (exSrc[2]).1 false) 1 (2 ^ SURFACE)).bind
+    (fun i => .ok (i.dictionaryFormWordId, i.dictionaryForm)) = .ok (0, [99]) := by decide
+
+example : ∃ hd : widDic (widNew 2 1) < exSrc.length, widWord (widNew 2 1) < (exSrc[widDic (widNew 2 1)]).1.length := by
+  decide
 end C11
